@@ -33,6 +33,10 @@ pub trait RollingValidNorm<T: IsNone>: Vec1View<T> {
         let mut sum = 0.;
         let mut sum2 = 0.;
         let mut n = 0;
+        // length of the run of identical most recent valid values: when it covers the
+        // window the spread is exactly zero, whatever rounding residue `var` carries
+        let mut last_v = f64::NAN;
+        let mut n_same = 0;
         // the sample standard deviation needs two observations (as in ts_vstd)
         let min_periods = min_periods.unwrap_or(window / 2).min(window).max(2);
         self.rolling_apply(
@@ -41,6 +45,11 @@ pub trait RollingValidNorm<T: IsNone>: Vec1View<T> {
                 let res = if v.not_none() {
                     n += 1;
                     let v = v.unwrap().f64();
+                    if v == last_v {
+                        n_same += 1;
+                    } else {
+                        (last_v, n_same) = (v, 1);
+                    }
                     sum += v;
                     sum2 += v * v;
                     if n >= min_periods {
@@ -48,7 +57,7 @@ pub trait RollingValidNorm<T: IsNone>: Vec1View<T> {
                         let mut var = sum2 / n_f64;
                         let mean = sum / n_f64;
                         var -= mean.powi(2);
-                        if var > EPS {
+                        if var > EPS && n_same < n {
                             (v - mean) / (var * n_f64 / (n - 1).f64()).sqrt()
                         } else {
                             f64::NAN
